@@ -98,6 +98,20 @@ def gen(rng, tier):
         rhs = rng.choice(["x + f", "0 + w + g", "x:f + (1 | g)", "f + (x | h)", "w", "scale(x) + c"])
         cases.append({"formula": f"{resp} ~ {rhs}", "frame": fr, "na": "drop", "kind": kind, "resp": resp, "rhs": rhs,
                       "tag": "missing-response"})
+    # an integer response beyond 2**53 (identifiers, nanosecond counts), in numpy's int64 and in pandas' nullable
+    # Int64: "returned unchanged" is exact, not up to a float conversion
+    for i in range(12 if tier != "thorough" else 100):
+        fr = gen_dm.make_frame(rng)
+        nrow = len(fr["columns"][0]["values"])
+        big = [2 ** 53 + 1, -(2 ** 53) - 1, 1700000000123456789, 5, 12, 2 ** 62 + 3]
+        for col in fr["columns"]:
+            if col["name"] == "z":
+                col["values"] = [big[j % len(big)] + (j // len(big)) for j in range(nrow)]
+                col.pop("dtype", None)
+                col["type"] = rng.choice(["nint", "int"])
+        rhs = rng.choice(["x + f", "0 + w + g", "x:f + (1 | g)", "w"])
+        cases.append({"formula": f"z ~ {rhs}", "frame": fr, "na": "drop", "kind": "num", "resp": "z", "rhs": rhs,
+                      "tag": "big-int-response"})
     for rhs in ["x + f", "0 + x", "x + (1|g)"]:
         cases.append({"formula": rhs, "frame": gen_dm.make_frame(rng), "na": "drop", "kind": "none", "resp": None, "rhs": rhs})
     return cases
@@ -142,6 +156,13 @@ def oracle(c):
     if R.shape[0] != n:
         return f"{f!r}: response has {R.shape[0]} rows"
     resp = c["resp"]
+    if c.get("tag") == "big-int-response":
+        got_exact = [int(v) for v in np.asarray(d.response.design_matrix).reshape(-1).tolist()]
+        want_exact = [int(v) for v in df[resp].tolist()]
+        if got_exact != want_exact:
+            bad = next(j for j, (a_, b_) in enumerate(zip(got_exact, want_exact)) if a_ != b_)
+            return (f"{f!r}: the integer response is not returned unchanged: row {bad} holds {got_exact[bad]}, the "
+                    f"column ({df[resp].dtype}) holds {want_exact[bad]}")
     if kind == "num":
         if R.shape[1] != 1 or not np.array_equal(R[:, 0], df[resp].to_numpy(dtype=float)):
             return f"{f!r}: numeric response is not returned unchanged"
